@@ -114,6 +114,7 @@ class ClientAuth(Auth):
 
     def __init__(self, conn: 'SSHClientConnection', method: bytes):
         self._method = method
+        self._request_sent = False
 
         super().__init__(conn, self._start())
 
@@ -136,6 +137,13 @@ class ClientAuth(Auth):
 
         await self._conn.send_userauth_request(self._method, *args, key=key,
                                                trivial=trivial)
+        self._request_sent = True
+
+    @property
+    def request_sent(self) -> bool:
+        """Return whether a request has been sent for this auth method"""
+
+        return self._request_sent
 
 
 class _ClientNullAuth(ClientAuth):
